@@ -93,4 +93,83 @@ theorem Node.rekey_rewrite_isSome (n : Node) (d x : String) : ((n.rewrite d).rek
     rw [hr, rekeyProp_not_isDels hc'.1, rekeyProp_not_isDels hc'.2]
     simp
 
+/-! composition, re-keying to the present key -/
+
+theorem rekeyNodes_cons_some {x : String} {n m : Node} (ns : List Node) (h : n.rekey x = some m) :
+    rekeyNodes x (n :: ns) = ((rekeyNodes x ns).1, m :: (rekeyNodes x ns).2) := by
+  rw [rekeyNodes]; simp [h]
+
+theorem rekeyNodes_cons_none {x : String} {n : Node} (ns : List Node) (h : n.rekey x = none) :
+    rekeyNodes x (n :: ns) = (true, n :: ns) := by
+  rw [rekeyNodes]; simp [h]
+
+/-- re-keying composes on one property: re-keying the result to `b` is re-keying the original to `b` -/
+theorem rekeyProp_comp {p q : DelProp} {a : String} (b : String) (h : rekeyProp p a = some q) :
+    rekeyProp q b = rekeyProp p b := by
+  unfold rekeyProp at h
+  split at h
+  · cases h; simp [rekeyProp]
+  · cases h
+  · cases h; rfl
+
+/-- whether re-keying raises does not depend on the new key -/
+theorem rekeyProp_isSome_indep (p : DelProp) (a b : String) : (rekeyProp p a).isSome = (rekeyProp p b).isSome := by
+  unfold rekeyProp; split <;> rfl
+
+/-- re-keying to the key already present changes nothing -/
+theorem rekeyProp_present (x v : String) : rekeyProp (.dels [(x, v)]) x = some (.dels [(x, v)]) := rfl
+
+theorem Node.rekey_isSome_indep (n : Node) (a b : String) : (n.rekey a).isSome = (n.rekey b).isSome := by
+  unfold Node.rekey
+  have h1 := rekeyProp_isSome_indep n.ldel a b
+  have h2 := rekeyProp_isSome_indep n.cdel a b
+  cases h3 : rekeyProp n.ldel a <;> cases h4 : rekeyProp n.cdel a <;>
+    cases h5 : rekeyProp n.ldel b <;> cases h6 : rekeyProp n.cdel b <;> simp_all
+
+theorem Node.rekey_comp {n m : Node} {a : String} (b : String) (h : n.rekey a = some m) : m.rekey b = n.rekey b := by
+  unfold Node.rekey at h
+  split at h
+  · rename_i l c hl hc
+    cases h
+    unfold Node.rekey
+    simp only [rekeyProp_comp b hl, rekeyProp_comp b hc]
+  · cases h
+
+/-- re-keying composes: after a re-keying to `a` that did not raise, re-keying to `b` gives what re-keying the
+original to `b` gives -/
+theorem rekeyNodes_comp (a b : String) (ns : List Node) (h : (rekeyNodes a ns).1 = false) :
+    rekeyNodes b (rekeyNodes a ns).2 = rekeyNodes b ns := by
+  induction ns with
+  | nil => rfl
+  | cons n ns ih =>
+    cases hn : n.rekey a with
+    | none => rw [rekeyNodes_cons_none ns hn] at h; cases h
+    | some m =>
+      rw [rekeyNodes_cons_some ns hn] at h ⊢
+      simp only at h ⊢
+      have hsome : (n.rekey b).isSome = true := by rw [← Node.rekey_isSome_indep n a b, hn]; rfl
+      cases hb : n.rekey b with
+      | none => simp [hb] at hsome
+      | some m' =>
+        have hm : m.rekey b = some m' := by rw [Node.rekey_comp b hn, hb]
+        rw [rekeyNodes_cons_some _ hm, rekeyNodes_cons_some _ hb, ih h]
+
+/-- a delegation property is keyed by `x`: not an object, or a single entry under `x` -/
+def KeyedBy (x : String) (p : DelProp) : Prop := p.isDels = false ∨ ∃ v, p = .dels [(x, v)]
+
+theorem rekeyProp_keyedBy {x : String} {p : DelProp} (h : KeyedBy x p) : rekeyProp p x = some p := by
+  rcases h with h | ⟨v, rfl⟩
+  · exact rekeyProp_not_isDels h x
+  · rfl
+
+theorem rekeyNodes_present (x : String) (ns : List Node)
+    (h : ∀ n ∈ ns, KeyedBy x n.ldel ∧ KeyedBy x n.cdel) : rekeyNodes x ns = (false, ns) := by
+  induction ns with
+  | nil => rfl
+  | cons n ns ih =>
+    have hn := h n (List.mem_cons_self ..)
+    have : n.rekey x = some n := by
+      unfold Node.rekey; rw [rekeyProp_keyedBy hn.1, rekeyProp_keyedBy hn.2]
+    rw [rekeyNodes_cons_some ns this, ih (fun n' h' => h n' (List.mem_cons_of_mem _ h'))]
+
 end FimVerif.Arm
